@@ -428,6 +428,10 @@ func (c *OracleC14) AfterTxn(w *ledger.World, bc *ledger.BlockCtx, o *ledger.Out
 			got = after - before
 		}
 		credited += got
+		if debugOut {
+			pb, cb := prev.Blobbers[ba.BlobberID], cur.Blobbers[ba.BlobberID]
+			w.Tr.Event("    close: blobber %s credited %d (rewards %d -> %d, stake %d -> %d, killed %v) integral %d", short(ba.BlobberID), got, before, after, pb.SP.Stake(), cb.SP.Stake(), pb.SP.Killed, ba.Integral)
+		}
 		if pre.Enterprise {
 			// enterprise allocations pay the blobbers for the used time at close (no
 			// challenge pool); the statement's bound speaks of challenge rewards only
@@ -461,10 +465,13 @@ func (c *OracleC14) AfterTxn(w *ledger.World, bc *ledger.BlockCtx, o *ledger.Out
 		if got.Cmp(want) > 0 {
 			dir = "excess"
 		}
-		dead := "all-blobbers-live"
+		// context: is there a blobber whose stake pool takes no rewards at all
+		// (killed / shut down, or staked below the pool's minimum after a slash)?
+		dead := "all-stake-pools-take-rewards"
 		for _, ba := range pre.BAs {
-			if b := prev.Blobbers[ba.BlobberID]; b == nil || b.Dead() || b.SP.Killed {
-				dead = "with-dead-blobber"
+			pb, cb := prev.Blobbers[ba.BlobberID], cur.Blobbers[ba.BlobberID]
+			if pb == nil || pb.Dead() || pb.SP.Rewardless() || (cb != nil && cb.SP.Rewardless()) {
+				dead = "with-rewardless-stake-pool"
 			}
 		}
 		w.Tr.Violate(&sim.Violation{Prop: "C14", Oracle: "refund", Sig: fmt.Sprintf("C14/owner-refund-differs-from-remaining-pools/%s/%s/%s", fn, dir, dead),
